@@ -142,6 +142,7 @@ type c11RunRec struct {
 	nodes   map[string]*c11NodeObs
 	rerun   map[string]bool
 	eager   *c11EagerCtl
+	late    *c11LateCtl
 	// non-pointer state types: the objects the generator made, one "somebody is inside" flag per
 	// object (keyed by the identity of its shared storage) and the overlap count
 	genVals  []c11StateLike
@@ -227,6 +228,10 @@ func c11Stamp(ctx context.Context, no *c11NodeObs, gid int, tag string, in strin
 	rr := c11Rec(ctx)
 	if e := rr.eager; e != nil {
 		ok := e.enter(e.late[gid])
+		defer e.leave(ok)
+	}
+	if e := rr.late; e != nil {
+		ok := e.enter()
 		defer e.leave(ok)
 	}
 	if !rr.enter(s) {
@@ -733,6 +738,9 @@ func c11RunCase(idx int, c *c11Case) *c11CaseObs {
 		return o
 	}
 	c11RegOnce.Do(func() { compose.RegisterSerializableType[C11State]("verif_c11_state") })
+	if c.Kind == "late" {
+		return c11LateRunCase(idx, c)
+	}
 	if c.Kind == "resume" || c.Kind == "eager" || c.Kind == "paths" {
 		return c11ResumeRunCase(idx, c)
 	}
